@@ -69,3 +69,39 @@ func VerifH_C15_readWriter() {
 	verifAssert(i == len(lg.ev), "more limiter or wire operations than requested")
 	verifCover("done")
 }
+
+type c15SlowLimiter struct{ d time.Duration }
+
+func (l *c15SlowLimiter) Take() time.Time { time.Sleep(l.d); return time.Now() }
+
+// VerifH_C15_readWhileWaiting: the sender is waiting in the limiter (a long Take) when the receiver
+// reads: K reads issued during the wait complete at once (logical clock: at the instant they were
+// issued), whatever the limiter is doing - receiving is never slowed by the rate limit.
+func VerifH_C15_readWhileWaiting() {
+	K := verifParam("K", 3)
+	lg := &c15Log{}
+	inner := &c15RW{log: lg}
+	wait := time.Duration(1+int(verifConcretize(uint64(ndU8("waitSeconds")%3)))) * time.Second
+	rw := NewRateLimitReadWriter(inner, &c15SlowLimiter{wait})
+	start := time.Duration(verifNow())
+	written := make(chan time.Duration, 1)
+	go func() {
+		_ = rw.WritePacketData([]byte{7})
+		written <- time.Duration(verifNow()) - start
+	}()
+	verifYield()
+	time.Sleep(10 * time.Millisecond) // the writer is inside Take now
+	slack := time.Duration(0)
+	if !verifSymbolic() {
+		slack = 200 * time.Millisecond
+	}
+	for i := 0; i < K; i++ {
+		t0 := time.Duration(verifNow())
+		_, _, err := rw.ReadPacketData()
+		verifAssert(err == nil, "read failed")
+		verifAssert(time.Duration(verifNow())-t0 <= slack, "a read had to wait for the rate limiter (receiving slowed by the limit)")
+	}
+	w := <-written
+	verifAssert(w >= wait-slack, "the write was not held back by the limiter")
+	verifCover("done")
+}
